@@ -25,7 +25,16 @@ type Dataset struct {
 }
 
 func GenDataset(t *rapid.T) Dataset {
+	return GenDatasetSized(t, rapid.IntRange(0, 9).Draw(t, "largeset") == 4)
+}
+
+// GenDatasetSized: large = trees of 67-130 tips instead of 12-16 (size-dependent shortcuts of
+// the commands; second word of the split bitsets).
+func GenDatasetSized(t *rapid.T, large bool) Dataset {
 	n := rapid.IntRange(12, 16).Draw(t, "ntips")
+	if large {
+		n = rapid.IntRange(67, 130).Draw(t, "ntipslarge")
+	}
 	o := gen.Opts{MinTips: n, MaxTips: n, Rooted: 0, MaxDeg: 3, Lens: gen.All, LenVals: gen.Arbitrary, Sups: gen.All}
 	base := gen.Tree(t, o)
 	// supports in [0,1] with 3 decimals so that rounding/scaling commands have something to do
